@@ -323,3 +323,48 @@ impl<const N: usize> DatagramPacketCodec<'_, N> {
             }
         }
     }
+
+//@@ octo-squirrel/src/codec/shadowsocks/aead_2022/udp.rs:21-28  fn nonce_length  sha=dfb9590ac15c2102
+/// SIP022 UDP: the AES variants use no separate nonce (session id | packet id is the nonce), the ChaCha variants a 24-byte XChaCha nonce
+fn a22udp__nonce_length(kind: CipherKind) -> (r: usize)
+    requires kind.is_2022(),
+    ensures
+        //#C03 C16
+        r == (if kind.has_eih() { 0int } else { 24int }),
+{
+    match kind {
+        CipherKind::Aead2022Blake3Aes128Gcm | CipherKind::Aead2022Blake3Aes256Gcm => 0,
+        CipherKind::Aead2022Blake3ChaCha8Poly1305 => 24,
+        CipherKind::Aead2022Blake3ChaCha20Poly1305 => 24,
+        _ => verif_panic(),
+    }
+}
+
+//@@ octo-squirrel/src/codec/shadowsocks/aead_2022/udp.rs:30-46  fn new_cipher  sha=024f06d68781379f
+fn a22udp__new_cipher(kind: CipherKind, key: &[u8], session_id: u64) -> (r: CipherMethod)
+    requires kind.is_2022(), key@.len() >= key_len_of(kind),
+    ensures
+        //#C16 C03
+        // SIP022 UDP: AES-GCM under the per-session sub-key; XChaCha8 / XChaCha20-Poly1305 under the pre-shared key itself
+        kind.has_eih() ==> (r.alg() == alg_of(kind) && r.key() == blake3_kdf("shadowsocks 2022 session subkey"@, key@ + be_bytes(session_id as nat, 8)).take(key_len_of(kind) as int)),
+        //#C16 C03
+        kind is Aead2022Blake3ChaCha8Poly1305 ==> (r.alg() == 4 && r.key() == key@.take(32)),
+        //#C16 C03
+        kind is Aead2022Blake3ChaCha20Poly1305 ==> (r.alg() == 5 && r.key() == key@.take(32)),
+{
+    match kind {
+        CipherKind::Aead2022Blake3Aes128Gcm | CipherKind::Aead2022Blake3Aes256Gcm => {
+            let key = a22__session_sub_key(key, &session_id.v_to_be_bytes());
+            CipherMethod::new(kind, &key)
+        }
+        CipherKind::Aead2022Blake3ChaCha8Poly1305 => {
+            let key = &key[..32];
+            CipherMethod::XChaCha8Poly1305(XChaCha8Poly1305::new(Key::<XChaCha8Poly1305>::from_slice(key)))
+        }
+        CipherKind::Aead2022Blake3ChaCha20Poly1305 => {
+            let key = &key[..32];
+            CipherMethod::XChaCha20Poly1305(XChaCha20Poly1305::new(Key::<XChaCha20Poly1305>::from_slice(key)))
+        }
+        _ => verif_panic(),
+    }
+}
